@@ -8,12 +8,31 @@ KANI_NOTE = ("Trusted: Kani's MIR->goto translation and std models, CBMC + CaDiC
              "a no-op (deallocation not modelled); per-loop unwind bounds are checked by unwinding assertions. ")
 
 CHECKS = {
+ "C01": dict(
+   text="Bounded model checking for panic-freedom (Kani checks every panic!, unwrap, arithmetic overflow with overflow-checks ON, shift, "
+        "division trap and slice index): to_number_value over every f64; every public js_op helper per scalar shape pair with every payload; every "
+        "eager operator closure at each arity its own descriptor accepts (n<=4); substr with i64 extremes / u64 / double operands; the negative-index helper over every i64.",
+   note=KANI_NOTE + "Units, not apply: nesting depth, allocation failure, CLI/Python process boundaries, operation-valued operands and `log` (println!) are outside. "
+        "The release profile (wrapping arithmetic) is exercised by the native replay only.",
+   design="4/C01"),
+ "C02": dict(
+   text="Bounded model checking of the three dispatch tables: every ASCII key of <=3 bytes is found iff it is a documented name; every one-edit neighbour "
+        "(substitution / insertion / deletion / case flip at a symbolic position with a symbolic byte) of the documented names is found iff it is itself a name; "
+        "literals (scalars, arrays even when they contain an operation, {}, non-operator single-key objects) parse to Raw and evaluate to the very same value (pointer identity).",
+   note=KANI_NOTE + "Near-miss families: 12 (name, edit) pairs in the quick tier, all 35 names x 4 edits in the thorough tier. Unit = Parsed::from_value / op_from_map, not apply.",
+   design="4/C02"),
  "C03": dict(
    text="Bounded model checking of the compiled code: every table descriptor against the documented arity set over EVERY usize operand count "
         "(35 operators), plus the generic dispatcher op_from_map per (operator, operand count n<=6) and per bare-operand shape: accepted iff documented, "
         "operands passed on unchanged (pointer identity) - UNSAT over all payloads.",
    note=KANI_NOTE + "Dispatcher layer bounded at n<=6 literal operands, one harness per concrete (operator, n).",
    design="4/C03"),
+ "C05": dict(
+   text="Bounded model checking of if_ / and / or on 0..7 (if) and 1..5 (and/or) literal operands with symbolic payloads: the returned operand equals the reference, "
+        "and - via a recording twin of Parsed::from_value - the operands parsed-and-evaluated are exactly the conditions left to right up to the deciding one plus its branch; "
+        "?: is the same function pointer as if.",
+   note=KANI_NOTE + "Parsed::from_value is replaced by a recording twin returning Raw (sound for literal operands: C02); operation-valued (poisoned / logging) operands are outside.",
+   design="4/C05"),
  "C06": dict(
    text="Bounded model checking of truthy(), the ! / !! table closures and the if / and / or users against the JsonLogic table, for every scalar "
         "payload (all i64/u64/f64 incl. -0.0), strings of <=2 symbolic chars, [], [0], [[]], {}, {a:false}.",
@@ -42,6 +61,17 @@ CHECKS = {
    note=KANI_NOTE + "Two fully symbolic doubles for + - min max; for * / % one operand is symbolic and the other a per-harness constant (two symbolic "
         "doubles through a multiplier/divider do not finish); the VALUE of float % is CBMC's fmod model on both sides (wiring only).",
    design="4/C10"),
+ "C11": dict(
+   text="Bounded model checking of the private lookup steps of var: the negative-index helper (len<=3, every i64), key typing per operand shape, whole-data keys "
+        "(null, \"\", no operand), integer keys on array data, and present-beats-default / absent-gives-default on concrete in-range and out-of-range keys (incl. i64::MIN/MAX).",
+   note=KANI_NOTE + "serde_json's Value::clone is replaced by a bounded model (scalars, arrays one level) in the array/default harnesses. String data by character, "
+        "path splitting and object paths are in the thorough tier or outside (see evidence 'outside_claim').",
+   design="4/C11"),
+ "C15": dict(
+   text="Bounded model checking of `in`: all 9 number representation pairs with every payload (member iff numerically equal), scalar membership by type and value, "
+        "null haystack false, scalar/object haystack error, string haystack with non-string needle error; `merge` on the empty and single-scalar operand lists.",
+   note=KANI_NOTE + "merge with array operands, substring search and object needles are in the thorough tier / outside (Vec growth and str::contains exceed 8-12 GB in CBMC).",
+   design="4/C15"),
  "C16": dict(
    text="Bounded model checking of substr against a character-based reference for strings of 0..1 (quick) / 0..3 (thorough) characters of symbolic "
         "UTF-8 width with start and length ranging over EVERY i64, and of cat on operand shapes string/null/bool/object (arrays and integers in the thorough tier).",
